@@ -98,3 +98,88 @@ Proof.
     split; cbn; discriminate. }
   exact (proj2 HI).
 Qed.
+
+(** * Once the registration channel is closed, a poll returns Pending only because a sink said so (C16) *)
+
+Definition PsClosedInv (s : st) : Prop := closed s = true -> ps_after_handle (ctl s) = false.
+
+Lemma psclosed_internal s s' : PsClosedInv s -> internal s = Some s' ->
+  PsClosedInv s' /\ (ctl s' = PReturn false -> closed s' = false).
+Proof.
+  unfold PsClosedInv. intros HC H. unfold internal in H.
+  crush_matches H; injection H as <-;
+    try match goal with Hc : ctl s = _ |- _ => rewrite Hc in HC end; cbn [ps_after_handle] in HC;
+    split; simp_st; unfold after_flush; cbn [ps_after_handle];
+    first [ discriminate | reflexivity | (intros _; reflexivity) | assumption
+          | (intros Hcl; specialize (HC Hcl); discriminate) | (intros _; assumption) | (intros Hcl; congruence)
+          | (intros _; destruct (closed s); [specialize (HC eq_refl); discriminate|reflexivity])
+          | (match goal with w : fl_reason |- _ => destruct w end; cbn [ps_after_handle] in *;
+             first [ discriminate | reflexivity | (intros _; reflexivity) | assumption
+                   | (intros Hcl; specialize (HC Hcl); discriminate) | (intros Hcl; congruence)
+                   | (intros _; destruct (closed s); [specialize (HC eq_refl); discriminate|reflexivity]) ]) ].
+Qed.
+
+Lemma psclosed_step_raw s e s' : PsClosedInv s -> step_raw s e = Some s' ->
+  PsClosedInv s' /\ (ctl s' = PReturn false -> closed s' = true -> sink_pending e = true).
+Proof.
+  unfold PsClosedInv. intros HC H. unfold step_raw in H.
+  crush_matches H; injection H as <-;
+    try match goal with Hc : ctl s = _ |- _ => rewrite Hc in HC end; cbn [ps_after_handle] in HC;
+    split; simp_st; try match goal with Hc : ctl s = _ |- _ => rewrite ?Hc end; cbn [ps_after_handle sink_pending];
+    first [ discriminate | reflexivity | (intros _; reflexivity) | (intros _ _; reflexivity) | assumption
+          | (intros Hcl; specialize (HC Hcl); discriminate) | (intros _; assumption) | (intros Hcl; congruence)
+          | (intros _ Hcl; specialize (HC Hcl); discriminate)
+          | (subst; cbn [sink_pending]; intros; reflexivity) ].
+Qed.
+
+Lemma internal_closed s s' : internal s = Some s' -> closed s' = closed s.
+Proof. intros H. unfold internal in H. crush_matches H; injection H as <-; simp_st; first [reflexivity|congruence]. Qed.
+
+Lemma step_raw_closed s e s' : step_raw s e = Some s' -> closed s = true -> closed s' = true.
+Proof.
+  intros H Hc. unfold step_raw in H. crush_matches H; injection H as <-; simp_st; first [exact Hc|reflexivity].
+Qed.
+
+Lemma ps_closed_settle fuel : forall s s',
+  PsClosedInv s -> closed s = true -> settle fuel s = Some s' ->
+  PsClosedInv s' /\ closed s' = true /\ (ctl s' = PReturn false -> s' = s).
+Proof.
+  induction fuel as [|k IH]; intros s s' HC Hcl H; cbn [settle] in H; [discriminate|].
+  destruct (internal s) as [s1|] eqn:E.
+  - destruct (psclosed_internal _ _ HC E) as [HC1 Hret].
+    assert (Hcl1 : closed s1 = true) by (rewrite (internal_closed _ _ E); exact Hcl).
+    destruct (IH s1 s' HC1 Hcl1 H) as (HC' & Hcl' & Hsame).
+    split; [exact HC'|]. split; [exact Hcl'|].
+    intros Hr. specialize (Hsame Hr). subst s'. specialize (Hret Hr). congruence.
+  - injection H as <-. auto.
+Qed.
+
+Theorem ps_closed_pending_only_from_sinks tr s e s' :
+  run init tr = Some s -> closed s = true -> step s e = Some s' -> ctl s' = PReturn false ->
+  sink_pending e = true.
+Proof.
+  intros Hrun Hcl Hstep Hret.
+  assert (HC : PsClosedInv s).
+  { revert Hrun. apply (ps_lift_run PsClosedInv).
+    - intros a b Ha Hi. exact (proj1 (psclosed_internal a b Ha Hi)).
+    - intros a ev b Ha Hr. exact (proj1 (psclosed_step_raw a ev b Ha Hr)).
+    - unfold PsClosedInv. cbn. discriminate. }
+  unfold step, obind in Hstep.
+  destruct (settled s) as [s0|] eqn:E0; [|discriminate].
+  destruct (ps_closed_settle _ _ _ HC Hcl E0) as (HC0 & Hcl0 & _).
+  assert (Hone : forall a, PsClosedInv a -> closed a = true ->
+                 match step_raw a e with Some x => settled x | None => None end = Some s' ->
+                 sink_pending e = true).
+  { intros a Ha Hca Hb. destruct (step_raw a e) as [x|] eqn:Ex; [|discriminate].
+    destruct (psclosed_step_raw _ _ _ Ha Ex) as [HCx Hp].
+    pose proof (step_raw_closed _ _ _ Ex Hca) as Hcx.
+    destruct (ps_closed_settle _ _ _ HCx Hcx Hb) as (_ & _ & Hsame).
+    specialize (Hsame Hret). subst x. now apply Hp. }
+  destruct (ctl s0) eqn:Ec0; try (now apply Hone with s0).
+  destruct e; try (now apply Hone with s0).
+  destruct (step_raw s0 (EStream j r)) as [s1|] eqn:E1; [|discriminate].
+  destruct (psclosed_step_raw _ _ _ HC0 E1) as [HC1 _].
+  pose proof (step_raw_closed _ _ _ E1 Hcl0) as Hcl1.
+  now apply Hone with s1.
+Qed.
+
